@@ -514,6 +514,15 @@ impl QuorumSamplingStrategy for PartitionSampler {
     }
 }
 
+/// Number of committee seats `floor(stake / total_stake * k)` a validator is guaranteed.
+///
+/// Uses exact integer arithmetic: in floating point a validator holding exactly `m / k`
+/// of the stake can come out just below `m` and lose a guaranteed seat.
+fn guaranteed_samples(stake: Stake, total_stake: Stake, k: u64) -> u64 {
+    let samples = u128::from(stake.inner()) * u128::from(k) / u128::from(total_stake.inner());
+    samples as u64
+}
+
 /// A sampler that uses the FA1-F committee sampling strategy.
 ///
 /// This is a strict improvement over performing IID stake-weighted sampling.
@@ -542,8 +551,7 @@ impl FaitAccompli1Sampler<PartitionSampler> {
         let mut required_samples = Vec::new();
         let mut validators_truncated_stake = validators.clone();
         for v in &mut validators_truncated_stake {
-            let frac_stake = v.stake.inner() as f64 / total_stake.inner() as f64;
-            let samples = (frac_stake * k as f64).floor() as u64;
+            let samples = guaranteed_samples(v.stake, total_stake, k);
             v.stake -= Stake::new(samples * total_stake.inner() / k);
             required_samples.extend((0..samples).map(|_| v.id));
         }
@@ -574,8 +582,7 @@ impl FaitAccompli1Sampler<IidQuorumSampler<StakeWeightedSampler>> {
         let mut required_samples = Vec::new();
         let mut validators_truncated_stake = validators.clone();
         for v in &mut validators_truncated_stake {
-            let frac_stake = v.stake.inner() as f64 / total_stake.inner() as f64;
-            let samples = (frac_stake * k as f64).floor() as u64;
+            let samples = guaranteed_samples(v.stake, total_stake, k);
             v.stake -= Stake::new(samples * total_stake.inner() / k);
             required_samples.extend((0..samples).map(|_| v.id));
         }
@@ -645,8 +652,7 @@ impl FaitAccompli2Sampler {
         let total_stake: Stake = validators.iter().map(|v| v.stake).sum();
         let mut required_samples = Vec::new();
         for v in &validators {
-            let frac_stake = v.stake.inner() as f64 / total_stake.inner() as f64;
-            let samples = (frac_stake * k as f64).floor() as u64;
+            let samples = guaranteed_samples(v.stake, total_stake, k);
             required_samples.extend((0..samples).map(|_| v.id));
         }
 
